@@ -7,7 +7,10 @@
 (* whose push succeeded and the pointers the compressor emitted.             *)
 (* One action per public call: push a question / a record / an OPT record,   *)
 (* section conversions (forward: remember where the section starts;           *)
-(* backward: truncate), rewind, set / clear the push limit, finish.           *)
+(* backward: truncate), rewind, set / clear the push limit, finish; writing    *)
+(* the first four octets through header_mut(); and the composite calls         *)
+(* start_answer / start_error / request_axfr (header fields from a request,    *)
+(* its questions pushed, then the answer section).                             *)
 (*                                                                          *)
 (* A push is literally MessageBuilder::push: append; fail if the target is   *)
 (* full; fail if the new length reaches the limit; increment the count; on    *)
@@ -23,6 +26,11 @@ EXTENDS MsgBuilderWire
 
 CONSTANT Dev     \* named deviations of today's code, see DESIGN 2.6
 
+\* D_opt_rcode_sticks: OptBuilder::set_rcode writes the low four bits of the
+\* extended RCODE into the message header at once; when the OPT push then
+\* fails (no room, push limit) the record is cut off again but the header keeps
+\* the new RCODE.
+\*
 \* D_ptr_limit_c000: StaticCompressor::insert, TreeCompressor::insert,
 \* HashEntry::new and the three Truncate guards compare offsets with 0xC000
 \* although a compression pointer has 14 bits.  The pointer that is written,
@@ -46,10 +54,11 @@ VARIABLES
   limit,     \* push limit
   shim,      \* value of the two-octet length prefix (stream target)
   accepted,  \* ghost: sequence of [sec, item] of the pushes that succeeded and were not rewound
+  hdr,       \* ghost: the first four octets (ID, flags, opcode, RCODE) as last set by a successful call
   res,       \* result of the last call: "ok" / "err" for pushes, "-" otherwise
   amb        \* ghost: the last push composed to exactly `limit` octets (see MayOk)
 
-vars == <<cfg, buf, tab, plog, section, starts, limit, shim, accepted, res, amb>>
+vars == <<cfg, buf, tab, plog, section, starts, limit, shim, accepted, hdr, res, amb>>
 
 --------------------------------------------------------------------------
 (* Compressor tables.                                                       *)
@@ -199,6 +208,7 @@ Init0(c, t, cap) ==
   /\ limit = NoLimit
   /\ shim = 12
   /\ accepted = <<>>
+  /\ hdr = <<0, 0, 0, 0>>
   /\ res = "-"
   /\ amb = FALSE
 
@@ -213,28 +223,46 @@ MayOk(n, sec)  == n <= cfg.cap /\ n <= limit /\ BU16(buf, CountOff(sec)) < 65535
 MayErr(n, sec) == n > cfg.cap \/ n >= limit \/ BU16(buf, CountOff(sec)) = 65535
 Ambiguous(n) == n <= cfg.cap /\ n = limit
 
+\* the first four octets of a buffer replaced (they are always concrete)
+BSetHdr(b, h) == [b EXCEPT !.s = [i \in 1..Len(@) |-> IF i <= 4 THEN h[i] ELSE @[i]]]
+BHdr(b) == SubSeq(b.s, 1, 4)
+\* the RCODE (low four bits of the fourth octet) replaced
+WithRcode(h, rc) == [h EXCEPT ![4] = (@ - (@ % 16)) + rc]
+
 \* (\E x \in {e} : ... makes TLC evaluate e once)
-Push(sec, item) ==
+\* hd: the header octets the call writes while it composes (OptBuilder::set_rcode), or
+\* the present ones
+PushH(sec, item, hd) ==
   \E c \in {ComposeItem(cfg.comp, St, item)} :       \* after appending
     LET n == c.b.len IN
     /\ amb' = Ambiguous(n)
     /\ \/ /\ MayOk(n, sec)
-          /\ buf' = BPatch16(c.b, CountOff(sec), BU16(buf, CountOff(sec)) + 1)
+          /\ buf' = BSetHdr(BPatch16(c.b, CountOff(sec), BU16(buf, CountOff(sec)) + 1), hd)
           /\ tab' = c.tab
           /\ plog' = c.plog
           /\ shim' = n
           /\ accepted' = Append(accepted, [sec |-> sec, item |-> item])
+          /\ hdr' = hd
           /\ res' = "ok"
           /\ UNCHANGED <<cfg, section, starts, limit>>
        \/ /\ MayErr(n, sec)
           /\ \E t \in {TruncSt(cfg.comp, c, buf.len)} :     \* target.truncate(pos)
-               /\ buf' = t.b /\ tab' = t.tab /\ plog' = t.plog /\ shim' = t.b.len
+               /\ buf' = IF "D_opt_rcode_sticks" \in Dev THEN BSetHdr(t.b, hd) ELSE t.b
+               /\ tab' = t.tab /\ plog' = t.plog /\ shim' = t.b.len
           /\ res' = "err"
-          /\ UNCHANGED <<cfg, section, starts, limit, accepted>>
+          /\ UNCHANGED <<cfg, section, starts, limit, accepted, hdr>>
+Push(sec, item) == PushH(sec, item, BHdr(buf))
 
 PushQuestion(q) == section = 1 /\ q.k = "q" /\ Push(1, q)
 PushRecord(r)   == section \in 2..4 /\ r.k = "r" /\ Push(section, r)
-PushOpt(r)      == section = 4 /\ r.k = "r" /\ r.rtype = 41 /\ r.name = <<>> /\ Push(4, r)
+IsOpt(r)        == r.k = "r" /\ r.rtype = 41 /\ r.name = <<>>
+PushOpt(r)      == section = 4 /\ IsOpt(r) /\ Push(4, r)
+\* AdditionalBuilder::opt with OptBuilder::set_rcode(rc), rc the 12-bit extended
+\* RCODE: its upper eight bits are the first TTL octet of the record, its lower
+\* four bits go into the message header
+PushOptRcode(r, rc) ==
+  /\ section = 4 /\ IsOpt(r) /\ rc \in 0..4095 /\ r.ttl[1] = rc \div 16
+  /\ PushH(4, r, WithRcode(BHdr(buf), rc % 16))
 
 \* truncate to offset n and zero the counts of the sections above s
 CutTo(n, s) ==
@@ -256,28 +284,89 @@ GotoSection(s) ==
   /\ IF s >= section
      THEN \* forward: every record section entered starts at the current end
           /\ starts' = [k \in 1..4 |-> IF k >= 2 /\ k > section /\ k <= s THEN buf.len ELSE starts[k]]
-          /\ UNCHANGED <<cfg, buf, tab, plog, limit, shim, accepted>>
+          /\ UNCHANGED <<cfg, buf, tab, plog, limit, shim, accepted, hdr>>
      ELSE \* backward: the sections above s are rewound, highest first
           /\ CutTo(SecStart(s + 1), s)
-          /\ UNCHANGED <<cfg, starts, limit>>
+          /\ UNCHANGED <<cfg, starts, limit, hdr>>
 
 \* rewind() of the section builder one is in
 Rewind ==
   /\ section \in 1..4
   /\ res' = "-" /\ amb' = FALSE
   /\ CutTo(SecStart(section), section - 1)
-  /\ UNCHANGED <<cfg, section, starts, limit>>
+  /\ UNCHANGED <<cfg, section, starts, limit, hdr>>
 
 SetLimit(n) ==
   /\ section \in 0..4
   /\ limit' = n /\ res' = "-" /\ amb' = FALSE
-  /\ UNCHANGED <<cfg, buf, tab, plog, section, starts, shim, accepted>>
+  /\ UNCHANGED <<cfg, buf, tab, plog, section, starts, shim, accepted, hdr>>
 ClearLimit == SetLimit(NoLimit)
 
 Finish ==
   /\ section \in 0..4
   /\ section' = 5 /\ res' = "-" /\ amb' = FALSE
-  /\ UNCHANGED <<cfg, buf, tab, plog, starts, limit, shim, accepted>>
+  /\ UNCHANGED <<cfg, buf, tab, plog, starts, limit, shim, accepted, hdr>>
+
+\* header_mut() on any builder: ID, flags, opcode and RCODE written
+SetHeader(h) ==
+  /\ section \in 0..4
+  /\ Len(h) = 4 /\ \A i \in 1..4 : h[i] \in 0..255
+  /\ buf' = BSetHdr(buf, h) /\ hdr' = h
+  /\ res' = "-" /\ amb' = FALSE
+  /\ UNCHANGED <<cfg, tab, plog, section, starts, limit, shim, accepted>>
+
+\* MessageBuilder::start_answer(msg, rcode) / start_error(msg, rcode) /
+\* request_axfr(apex) on a message builder (section 0, nothing pushed yet).
+\*   start_answer: ID, opcode and RD copied from the request header rq, QR set,
+\*     RCODE set; question(); every question of the request pushed; if one
+\*     push fails the call fails and the builder is gone; answer().
+\*   start_error: the same, but a failing push ends the pushing and sets RCODE
+\*     SERVFAIL; the call itself cannot fail.
+\*   request_axfr: a random ID; the one question pushed (failure as above).
+\* st: [b, tab, plog, acc, ok, amb]; atlim: is a message of exactly `limit`
+\* octets refused (the implementation does; the property leaves it open)
+RECURSIVE PushQs(_, _, _, _)
+PushQs(st, qs, i, atlim) ==
+  IF i > Len(qs) \/ ~st.ok THEN st
+  ELSE LET c == ComposeItem(cfg.comp, [b |-> st.b, tab |-> st.tab, plog |-> st.plog], qs[i])
+           n == c.b.len
+           cnt == BU16(st.b, 4)
+           fits == n <= cfg.cap /\ (n < limit \/ (n = limit /\ ~atlim)) /\ cnt < 65535
+       IN IF fits
+          THEN PushQs([b |-> BPatch16(c.b, 4, cnt + 1), tab |-> c.tab, plog |-> c.plog,
+                       acc |-> Append(st.acc, [sec |-> 1, item |-> qs[i]]), ok |-> TRUE,
+                       amb |-> st.amb \/ n = limit], qs, i + 1, atlim)
+          ELSE LET t == TruncSt(cfg.comp, c, st.b.len)
+               IN [b |-> t.b, tab |-> t.tab, plog |-> t.plog, acc |-> st.acc, ok |-> FALSE,
+                   amb |-> st.amb \/ (n = limit /\ n <= cfg.cap)]
+
+\* the header a reply starts with: own AA, TC, RA, Z, AD, CD bits stay
+ReplyHdr(own, rq, rc) ==
+  << rq[1], rq[2],
+     128 + ((rq[3] % 128) - (rq[3] % 8)) + ((own[3] % 8) - (own[3] % 2)) + (rq[3] % 2),
+     (own[4] - (own[4] % 16)) + rc >>
+
+StartReply(kind, rq, rc, qs) ==
+  /\ section = 0 /\ kind \in {"answer", "error", "axfr"}
+  /\ rc \in 0..15 /\ Len(rq) = 4
+  /\ \A i \in 1..Len(qs) : qs[i].k = "q"
+  /\ kind = "axfr" => Len(qs) = 1
+  /\ \E atlim \in BOOLEAN :
+     \E h0 \in {IF kind = "axfr" THEN <<rq[1], rq[2], BHdr(buf)[3], BHdr(buf)[4]>>
+                 ELSE ReplyHdr(BHdr(buf), rq, rc)} :
+     \E r \in {PushQs([b |-> BSetHdr(buf, h0), tab |-> tab, plog |-> plog, acc |-> accepted,
+                        ok |-> TRUE, amb |-> FALSE], qs, 1, atlim)} :
+       LET h1 == IF kind = "error" /\ ~r.ok THEN WithRcode(h0, 2) ELSE h0
+           gone == kind # "error" /\ ~r.ok
+       IN /\ (atlim = FALSE => r.amb)          \* the other reading only where it matters
+          /\ amb' = r.amb
+          /\ buf' = BSetHdr(r.b, h1) /\ hdr' = h1
+          /\ tab' = r.tab /\ plog' = r.plog /\ shim' = r.b.len
+          /\ accepted' = r.acc
+          /\ section' = IF gone THEN 5 ELSE 2
+          /\ starts' = IF gone THEN starts ELSE [starts EXCEPT ![2] = r.b.len]
+          /\ res' = IF kind = "error" THEN "-" ELSE IF r.ok THEN "ok" ELSE "gone"
+          /\ UNCHANGED <<cfg, limit>>
 
 --------------------------------------------------------------------------
 (* The property. *)
@@ -292,6 +381,9 @@ CountsMatch == HdrCounts(buf) = <<SecCount(accepted, 1), SecCount(accepted, 2),
 FailedPushIsNoop ==
   [][res' = "err" => /\ buf' = buf /\ tab' = tab /\ plog' = plog
                      /\ accepted' = accepted /\ shim' = shim]_vars
+\* ... which includes the message header: it holds what was last set by a call
+\* that succeeded
+HeaderKept == BHdr(buf) = hdr
 \* (c) every pointer the compressor emitted stands after its target, the
 \* target is expressible in 14 bits, and the name read there is the one meant
 PointersBackwardAndIntended ==
